@@ -169,6 +169,9 @@ enum Tok {
     Pt(u64, u64),
     /// on-disk layout
     Lay,
+    /// the store clock reads <secs> from now on (`verif::set_store_now_secs`): the second the STORE
+    /// handler stamps on the following events; it may step back or repeat
+    T(u64),
 }
 
 impl Tok {
@@ -178,6 +181,7 @@ impl Tok {
             Tok::P(c) => format!("P {c}"),
             Tok::Pt(c, t) => format!("PT {c} {t}"),
             Tok::Lay => "LAY".into(),
+            Tok::T(t) => format!("T {t}"),
         }
     }
 }
@@ -196,6 +200,7 @@ fn parse_tok(t: &str) -> Option<Tok> {
         ["P", c] => Tok::P(c.parse().ok()?),
         ["PT", c, t] => Tok::Pt(c.parse().ok()?, t.parse().ok()?),
         ["LAY"] => Tok::Lay,
+        ["T", t] => Tok::T(t.parse().ok()?),
         _ => return None,
     })
 }
@@ -222,17 +227,24 @@ fn replay_once(ex: &mut Exec, ctx: u64, ty: Option<u64>) -> Option<Vec<u64>> {
     Some(r.col("k").iter().filter_map(|v| v.as_u64()).collect())
 }
 
+fn live_labels(ex: &mut Exec) -> BTreeSet<u64> {
+    ex.s.ctl(serde_json::json!({"ctl":"live","shard":0}))
+        .and_then(|v| v["live"].as_array().map(|a| a.iter().filter_map(|x| x.as_str().and_then(|s| s.parse().ok())).collect()))
+        .unwrap_or_default()
+}
+
 fn ascending(v: &[u64]) -> bool {
     v.windows(2).all(|w| w[0] < w[1])
 }
 
 /// Class of a replay that is not in append order. `seq`: the answer; `app`: the selected
 /// events in append order; `disk`: per segment directory (label order) the selected keys in
-/// file order; `mem_poss`: keys that may (also) be in memory buffers.
+/// file order, a key present in several directories kept in the first only (`disk_raw`: without
+/// that deduplication); `mem_poss`: keys that may (also) be in memory buffers.
 ///
 /// Narrowness: the answer must hold exactly the selected events; events that are on disk only
 /// must come in file order (label order, zone order, row order) — anything else is class `-`.
-fn classify(seq: &[u64], app: &[u64], disk: &[(u64, Vec<u64>)], mem_poss: &BTreeSet<u64>) -> &'static str {
+fn classify(seq: &[u64], app: &[u64], disk: &[(u64, Vec<u64>)], disk_raw: &[(u64, Vec<u64>)], mem_poss: &BTreeSet<u64>) -> &'static str {
     let (mut a, mut b) = (seq.to_vec(), app.to_vec());
     a.sort();
     b.sort();
@@ -247,24 +259,27 @@ fn classify(seq: &[u64], app: &[u64], disk: &[(u64, Vec<u64>)], mem_poss: &BTree
     if s_do != d_do {
         return "-";
     }
-    for (_, ks) in disk {
-        if !ascending(ks) {
-            // a directory whose rows of one context are out of append order: a flushed segment
-            // never was, and compaction outputs are not any more (finding C04-heap-tie-order,
-            // fixed by 32904ff: the merger breaks ties by cursor index) — a recurrence is a violation
-            return "-";
-        }
-    }
     if !ascending(&dorder) {
-        // every directory is internally ordered: some boundary is descending
-        let ne: Vec<&(u64, Vec<u64>)> = disk.iter().filter(|(_, ks)| !ks.is_empty()).collect();
-        let mut all_level = true;
-        for w in ne.windows(2) {
-            if w[0].1.last().unwrap() > w[1].1.first().unwrap() && w[1].0 < 10_000 {
-                all_level = false;
+        // The directories' rows, concatenated in label order, are not in append order. Known cause:
+        // label order is not age order — a compaction output (older rows) carries a higher label
+        // than newer directories of a lower level. Decidable: list the directories by age instead
+        // (higher levels first, labels ascending inside a level; a row present in several
+        // directories — re-flushed WAL replay, C01-wal-replay-duplicates — taken from the oldest):
+        // then every directory and their concatenation must be in append order. Anything else
+        // (e.g. a flushed segment or a compaction output that is internally out of order) is new.
+        let mut by_age: Vec<&(u64, Vec<u64>)> = disk_raw.iter().collect();
+        by_age.sort_by_key(|(l, _)| (std::cmp::Reverse(*l / 10_000), *l));
+        let mut seen: BTreeSet<u64> = BTreeSet::new();
+        let mut aged: Vec<u64> = vec![];
+        for (_, ks) in by_age {
+            let own: Vec<u64> = ks.iter().copied().filter(|k| seen.insert(*k)).collect();
+            if !ascending(&own) {
+                return "-";
             }
+            aged.extend(own);
         }
-        return if all_level { "compacted-level-listed-after-newer-l0" } else { "-" };
+        let has_level = disk_raw.iter().any(|(l, ks)| *l >= 10_000 && !ks.is_empty());
+        return if has_level && ascending(&aged) { "compacted-level-listed-after-newer-l0" } else { "-" };
     }
     let in_mem: Vec<u64> = seq.iter().copied().filter(|k| !dset.contains(k)).collect();
     if mem_poss.iter().any(|k| app.contains(k)) {
@@ -289,6 +304,11 @@ fn gen_history(r: &mut Rng, ntypes: u64, len: usize, crashes: bool) -> Vec<Tok> 
     r.shuffle(&mut pool);
     let ctxs: Vec<u64> = pool[..nctx].to_vec();
     let compaction = ntypes == 1;
+    // scripted store clock: per STORE the same second, +1..5 s, or -1..100 s, so that append order
+    // and time order of a context disagree inside a zone, across zones and across segments
+    let scripted = r.chance(9, 10);
+    let mut clock: u64 = 1_700_001_000;
+    let mut clock_sent = false;
     let pblock = |toks: &mut Vec<Tok>, c: u64| {
         for _ in 0..3 {
             if ntypes == 1 {
@@ -305,6 +325,18 @@ fn gen_history(r: &mut Rng, ntypes: u64, len: usize, crashes: bool) -> Vec<Tok> 
         if x < 52 {
             k += 1;
             let ctx = if r.chance(3, 5) { ctxs[0] } else { *r.pick(&ctxs) };
+            if scripted {
+                let before = clock;
+                match r.below(3) {
+                    0 => {}
+                    1 => clock += 1 + r.below(5),
+                    _ => clock -= 1 + r.below(100),
+                }
+                if clock != before || !clock_sent {
+                    toks.push(Tok::T(clock));
+                    clock_sent = true;
+                }
+            }
             toks.push(Tok::Op(Op::S { k, ctx, ty: r.below(ntypes) }));
         } else if x < 60 {
             toks.push(Tok::Op(Op::Adv));
@@ -342,6 +374,9 @@ fn gen_history(r: &mut Rng, ntypes: u64, len: usize, crashes: bool) -> Vec<Tok> 
         toks.push(Tok::Lay);
         pblock(&mut toks, ctxs[0]);
         k += 1;
+        if scripted {
+            toks.push(Tok::T(clock - 1 - r.below(50)));
+        }
         toks.push(Tok::Op(Op::S { k, ctx: ctxs[0], ty: 0 }));
         pblock(&mut toks, ctxs[0]);
     }
@@ -368,6 +403,13 @@ fn witnesses() -> Vec<Case> {
         h(2, 2, 2, 1, "S 1 0 0 | S 2 1 0 | S 3 0 0 | S 4 0 0 | RUN | S 5 0 0 | S 6 1 0 | S 7 0 0 | S 8 0 0 | RUN | LAY | C | LAY | P 0 | P 1"),
         // context key order is the byte order of the ids: c10 < c2
         h(2, 2, 2, 1, "S 1 2 0 | S 2 10 0 | S 3 2 0 | S 4 10 0 | RUN | LAY | P 2 | P 10"),
+        // append order is not time order: the store clock steps back between STOREs of one context.
+        // out-of-order pairs inside one zone / across two zones of a segment / across two segments
+        // (and carried through a compaction round and a restart)
+        h(4, 1, 2, 1, "T 1700000100 | S 1 0 0 | T 1700000105 | S 2 0 0 | T 1700000103 | S 3 0 0 | T 1700000101 | S 4 0 0 | RUN | LAY | P 0 | P 0"),
+        h(2, 2, 2, 1, "T 1700000100 | S 1 0 0 | T 1700000105 | S 2 0 0 | S 3 1 0 | T 1700000103 | S 4 0 0 | T 1700000090 | S 5 0 0 | P 0 | S 6 1 0 | RUN | LAY | P 0 | P 1"),
+        h(2, 1, 2, 1, "T 1700000105 | S 1 0 0 | S 2 0 0 | RUN | T 1700000100 | S 3 0 0 | T 1700000050 | S 4 0 0 | RUN | LAY | P 0 | C | LAY | P 0 | P 0"),
+        h(3, 1, 2, 1, "T 1700000105 | S 1 0 0 | T 1700000101 | S 2 0 0 | T 1700000103 | S 3 0 0 | RUN | LAY | P 0 | D | LAY | P 0"),
         // untyped REPLAY over two event types: zone list keyed by (zone id, label) only
         h(1, 2, 2, 2, "S 1 0 0 | S 2 0 1 | PT 0 0 | PT 0 1 | RUN | LAY | PT 0 0 | PT 0 1"),
     ]
@@ -384,6 +426,8 @@ fn run_history(st: &mut Stream, idx: u64, case: &Case, root: &Path) {
     let mut applied: Vec<(u64, u64, u64)> = vec![];
     let mut wmem: BTreeSet<u64> = BTreeSet::new();
     let mut dump_cache: Option<Vec<SegDump>> = None;
+    let mut clock: Option<u64> = None;
+    let mut ts_of: BTreeMap<u64, u64> = BTreeMap::new();
     let mut rounds = 0u64;
     let mut reads = 0u64;
     for (n, t) in toks.iter().enumerate() {
@@ -395,6 +439,11 @@ fn run_history(st: &mut Stream, idx: u64, case: &Case, root: &Path) {
                 }
                 if *o == Op::C {
                     rounds += 1;
+                }
+                if let (Op::S { k, .. }, Some(secs)) = (o, clock) {
+                    // scripted store clock (re-sent before every STORE: a restart forgets it)
+                    ex.s.ctl(serde_json::json!({"ctl": "store_now", "secs": secs}));
+                    ts_of.insert(*k, secs);
                 }
                 if let Some(l) = ex.exec(o) {
                     obs.push(l);
@@ -424,7 +473,8 @@ fn run_history(st: &mut Stream, idx: u64, case: &Case, root: &Path) {
                         // i.e. what the restart finds in the WAL files and the segment directories
                         let d = dump_layout(&ex.s.root.clone(), &ex.s.shard_data_dir(0), ntypes);
                         let mut alive: BTreeSet<u64> = wmem.clone();
-                        alive.extend(d.iter().flat_map(|s| s.zones.iter().flatten().map(|(_, k)| *k)));
+                        let live = live_labels(&mut ex);
+                        alive.extend(d.iter().filter(|s| live.contains(&s.label)).flat_map(|s| s.zones.iter().flatten().map(|(_, k)| *k)));
                         let before = applied.len();
                         applied.retain(|(k, _, _)| alive.contains(k));
                         st.tally_n("stores_lost_by_crash", (before - applied.len()) as u64);
@@ -433,6 +483,12 @@ fn run_history(st: &mut Stream, idx: u64, case: &Case, root: &Path) {
                     Op::F => wmem.clear(),
                     _ => {}
                 }
+            }
+            Tok::T(secs) => {
+                if let Some(prev) = clock {
+                    st.tally(if *secs < prev { "clock_steps_back" } else { "clock_steps_forward" });
+                }
+                clock = Some(*secs);
             }
             Tok::Lay => {
                 let d = dump_cache.get_or_insert_with(|| dump_layout(&ex.s.root.clone(), &ex.s.shard_data_dir(0), ntypes));
@@ -460,8 +516,14 @@ fn run_history(st: &mut Stream, idx: u64, case: &Case, root: &Path) {
                 let d = dump_cache.get_or_insert_with(|| dump_layout(&ex.s.root.clone(), &ex.s.shard_data_dir(0), ntypes)).clone();
                 let sel = |cc: u64, tt: u64| cc == c && ty.map(|x| x == tt).unwrap_or(true);
                 // selected keys per directory in file order (types in ascending order inside a directory)
+                // directories a read visits: the live list, plus the directory of the flush job that is
+                // written but not yet published (ids are allocated above every directory on disk, so
+                // it is the highest level-0 label). Since 113ae95 a restart no longer serves directories
+                // that segments.idx does not name.
+                let live: BTreeSet<u64> = live_labels(&mut ex);
+                let inflight: Option<u64> = if window { d.iter().map(|s| s.label).filter(|l| *l < 10_000).max() } else { None };
                 let mut disk: Vec<(u64, Vec<u64>)> = vec![];
-                for s in &d {
+                for s in d.iter().filter(|s| live.contains(&s.label) || inflight == Some(s.label)) {
                     let ks: Vec<u64> = s.zones.iter().flatten().filter(|(cc, _)| sel(*cc, s.ty)).map(|(_, k)| *k).collect();
                     match disk.last_mut() {
                         Some((l, v)) if *l == s.label => v.extend(ks),
@@ -470,6 +532,7 @@ fn run_history(st: &mut Stream, idx: u64, case: &Case, root: &Path) {
                 }
                 // a row present in several directories (WAL replay flushed again: recorded finding
                 // C01-wal-replay-duplicates) is answered from the first one (deduplication by id)
+                let disk_raw = disk.clone();
                 let mut seen_disk: BTreeSet<u64> = BTreeSet::new();
                 for (_, v) in disk.iter_mut() {
                     v.retain(|k| seen_disk.insert(*k));
@@ -504,7 +567,7 @@ fn run_history(st: &mut Stream, idx: u64, case: &Case, root: &Path) {
                             mem_poss.extend(ks.iter().copied());
                         }
                     }
-                    let class = classify(&seq, &app, &disk, &mem_poss);
+                    let class = classify(&seq, &app, &disk, &disk_raw, &mem_poss);
                     st.tally(&format!("departure:{class}"));
                     st.oracle_fail(idx, class, &format!("op#{n}: want [{}] got [{}] disk {:?} in {line}", join(&app), join(&seq), disk));
                 }
@@ -513,6 +576,26 @@ fn run_history(st: &mut Stream, idx: u64, case: &Case, root: &Path) {
                     wildcard_check(st, idx, n, &mut ex, c, &applied, &d, &line);
                 }
             }
+        }
+    }
+    // where do pairs of one context whose append order and time order disagree end up on disk?
+    if !ts_of.is_empty() {
+        let d = dump_layout(&ex.s.root.clone(), &ex.s.shard_data_dir(0), ntypes);
+        let later = |a: u64, b: u64| matches!((ts_of.get(&a), ts_of.get(&b)), (Some(x), Some(y)) if a < b && x > y);
+        let (mut same_zone, mut same_dir, mut other_dir) = (0u64, 0u64, 0u64);
+        let rows: Vec<(usize, usize, u64, u64)> = d.iter().enumerate().flat_map(|(di, s)| s.zones.iter().enumerate().flat_map(move |(zi, z)| z.iter().map(move |(c, k)| (di, zi, *c, *k)))).collect();
+        for (i, a) in rows.iter().enumerate() {
+            for b in rows.iter().skip(i + 1) {
+                if a.2 == b.2 && (later(a.3, b.3) || later(b.3, a.3)) {
+                    if a.0 == b.0 && a.1 == b.1 { same_zone += 1 } else if a.0 == b.0 { same_dir += 1 } else { other_dir += 1 }
+                }
+            }
+        }
+        st.tally_n("time_inverted_pairs_in_one_zone", same_zone);
+        st.tally_n("time_inverted_pairs_across_zones", same_dir);
+        st.tally_n("time_inverted_pairs_across_segments", other_dir);
+        if same_zone > 0 {
+            st.tally("histories_with_time_inversion_inside_a_zone");
         }
     }
     drop(ex);
@@ -580,7 +663,7 @@ fn history_stream(a: &Args, crashes: bool) {
         } else {
             let mut r = Rng::for_case(a.seed, &a.stream, i - nw);
             let cfg = SysCfg {
-                event_per_zone: 1 + r.below(3) as usize,
+                event_per_zone: *r.pick(&[1usize, 2, 2, 3, 3, 4, 4]),
                 fill_factor: 1 + r.below(3) as usize,
                 segments_per_merge: 2 + r.below(2) as usize,
                 ..Default::default()
@@ -711,9 +794,14 @@ fn probe(a: &Args) {
     let _ = std::fs::remove_dir_all(&root);
     let mut ex = Exec::start(&root, &cfg, nt);
     println!("{}", hist_line(&cfg, nt, &toks));
+    let mut clock: Option<u64> = None;
     for t in &toks {
         match t {
+            Tok::T(secs) => clock = Some(*secs),
             Tok::Op(o) => {
+                if let (Op::S { .. }, Some(secs)) = (o, clock) {
+                    ex.s.ctl(serde_json::json!({"ctl": "store_now", "secs": secs}));
+                }
                 if let Some(l) = ex.exec(o) {
                     println!("{} -> {l}", o.token());
                 }
